@@ -2,8 +2,10 @@
 """Runs registered checks against the seeded breaking changes in /verif/seeded/<name>/patch.diff.
 
 usage: tools/run_seeded.py [name ...] [--checks C01,C03] [--tier quick]
-Applies each patch to /repo (git apply), runs the checks (no evidence written), reverts (git checkout -- .).
-Writes seeded/<name>/detection.json and prints a table. /repo must be clean and otherwise idle while this runs.
+Default: each patch is applied in a scratch git worktree of /repo (under /tmp, removed afterwards) and the checks are
+pointed at it with VERIF_REPO, so /repo itself is never touched and background runs are not disturbed.
+With --in-repo=1 the patch is applied to /repo itself (git apply ... git checkout -- .); /repo must then be idle.
+Writes seeded/<name>/detection.json and prints a table.
 """
 import json, os, subprocess, sys, time
 ROOT = os.path.dirname(os.path.dirname(os.path.abspath(__file__)))
@@ -20,19 +22,29 @@ for name in names:
         continue
     meta = json.load(open(os.path.join(d, "meta.json"))) if os.path.exists(os.path.join(d, "meta.json")) else {}
     checks = opts.get("checks", ",".join(meta.get("checks", [name.split("-")[0]]))).split(",")
-    r = subprocess.run(["git", "-C", "/repo", "apply", patch], capture_output=True, text=True)
+    in_repo = opts.get("in-repo") == "1"
+    tree = "/repo" if in_repo else f"/tmp/verif-seedrun-{name}-{os.getpid()}"
+    if not in_repo:
+        subprocess.run(["git", "-C", "/repo", "worktree", "add", "--detach", tree, "HEAD", "-q"], check=True)
+    r = subprocess.run(["git", "-C", tree, "apply", patch], capture_output=True, text=True)
     if r.returncode != 0:
         rows.append((name, "APPLY-FAILED", r.stderr.strip()[:100]))
+        if not in_repo:
+            subprocess.run(["git", "-C", "/repo", "worktree", "remove", "--force", tree])
         continue
     res = {}
+    env = dict(os.environ, VERIF_REPO=tree)
     try:
         for c in checks:
             t0 = time.time()
-            p = subprocess.run([os.path.join(ROOT, "check"), c, "--tier", tier, "--no-evidence"], capture_output=True, text=True, cwd=ROOT)
+            p = subprocess.run([os.path.join(ROOT, "check"), c, "--tier", tier, "--no-evidence"], capture_output=True, text=True, cwd=ROOT, env=env)
             viol = [l for l in p.stdout.splitlines() if l.startswith("VIOLATION") or l.startswith("  sig=") or l.startswith("INCONCLUSIVE")]
             res[c] = dict(rc=p.returncode, wall=round(time.time() - t0, 1), lines=viol[:12])
     finally:
-        subprocess.run(["git", "-C", "/repo", "checkout", "--", "."], check=True)
+        if in_repo:
+            subprocess.run(["git", "-C", "/repo", "checkout", "--", "."], check=True)
+        else:
+            subprocess.run(["git", "-C", "/repo", "worktree", "remove", "--force", tree])
     json.dump(dict(tier=tier, results=res, at=time.strftime("%Y-%m-%d %H:%M")), open(os.path.join(d, "detection.json"), "w"), indent=1)
     rows.append((name, " ".join(f"{c}:rc={v['rc']}" for c, v in res.items()), ""))
     print(rows[-1], flush=True)
